@@ -17,7 +17,10 @@ type ChildTpl struct {
 	Namespaces []string          `json:"namespaces,omitempty"` // explicit namespaces (cluster-scoped parents); empty = omit namespace
 	ExplicitNS bool              `json:"explicitNS,omitempty"` // namespaced parent: spell the parent's namespace out
 	Labels     map[string]string `json:"labels,omitempty"`
-	Fields     map[string]any    `json:"fields,omitempty"` // string leaves "$p:<path>" are replaced by the parent's value at path
+	// LabelsFromSelector: the hook labels its children with the matchLabels of the selector of the parent it was
+	// shown (per-revision calls of a rollout are shown the parent as it was at that revision).
+	LabelsFromSelector bool           `json:"labelsFromSelector,omitempty"`
+	Fields             map[string]any `json:"fields,omitempty"` // string leaves "$p:<path>" are replaced by the parent's value at path
 	// EchoAnnotations: when the child is observed, the hook copies the observed
 	// metadata.annotations into its desired child (a common "start from what I was sent" hook style).
 	EchoAnnotations bool `json:"echoAnnotations,omitempty"`
@@ -169,6 +172,20 @@ func (p *HookProgram) DesiredAll(sim *vs.Server, parent map[string]any) []map[st
 						l[k] = v
 					}
 					meta["labels"] = l
+				}
+				if tpl.LabelsFromSelector {
+					if ml, ok := getPath(parent, "spec.selector.matchLabels"); ok {
+						if mm, ok := ml.(map[string]any); ok {
+							l, _ := meta["labels"].(map[string]any)
+							if l == nil {
+								l = map[string]any{}
+							}
+							for k, v := range mm {
+								l[k] = v
+							}
+							meta["labels"] = l
+						}
+					}
 				}
 				if len(tpl.Annotations) > 0 {
 					a := map[string]any{}
